@@ -107,6 +107,7 @@ func run(c *props.Ctx) {
 	attr1(c, fns)
 	short1(c)
 	round1(c)
+	elemLaws(c)
 
 	if len(p.Controls) > 0 {
 		for _, n := range []string{"verifControlShapeBadAttr", "verifControlShapeBadIndex", "verifControlShapeBadParam", "verifControlShapeBadRecv", "verifControlShapeBadCond"} {
